@@ -12,6 +12,7 @@ import (
 	"github.com/ipfs/go-cid"
 	"github.com/libp2p/go-libp2p/core/crypto"
 	"golang.org/x/crypto/nacl/secretbox"
+	"google.golang.org/protobuf/encoding/protowire"
 	"google.golang.org/protobuf/proto"
 	"google.golang.org/protobuf/reflect/protoreflect"
 
@@ -199,6 +200,18 @@ func c03Catalogue(g, otherG *protocoltypes.Group, typ protocoltypes.EventType, k
 			md := proto.Clone(payload).(*protocoltypes.GroupMemberDeviceAdded)
 			md.DevicePk = c03Raw(k.other)
 			add("f11-member-sig-copied-from-genuine", seal(g, typ, md, c03Sign(k.other, md)), true)
+		}
+	}
+	// f13: the signer field encoded twice, first the forger's key and last the victim's (a decoder keeps the last occurrence;
+	// whoever reads the key from the wire in another way may pick the first), signed by the forger over exactly these bytes
+	if fd := payload.ProtoReflect().Descriptor().Fields().ByName("device_pk"); fd != nil && !isGroupSigned {
+		if genuine, err := proto.Marshal(payload); err == nil {
+			raw := protowire.AppendTag(nil, fd.Number(), protowire.BytesType)
+			raw = protowire.AppendBytes(raw, c03Raw(k.other))
+			raw = append(raw, genuine...)
+			if sig, err := k.other.Sign(raw); err == nil {
+				add("f13-signer-field-twice", c03SealRaw(g, typ, raw, sig), true)
+			}
 		}
 	}
 	// f6: empty signature
@@ -429,9 +442,31 @@ func TestVerifC03(t *testing.T) {
 				rep.Sample(map[string]interface{}{"group_type": gt.String(), "event_type": typ.String(), "forgeries": len(forgeries), "appended_to_log": len(forgedCIDs),
 					"examples": []string{forgeries[0].id, forgeries[3].id, forgeries[len(forgeries)-1].id}})
 			}
+			// third observation point: the group is closed and opened again (the index is rebuilt from the stored log, in
+			// which the forged entries still sit): state and history listing must be what they were
+			expect := snapshotStore(ms).String()
 			sub.close()
-			_ = ms.Drop()
 			_ = gc.Close()
+			if gc2, err := victim.open(g); err != nil {
+				rep.Violate("C03/reopen-failed", fmt.Sprintf("the group cannot be opened again after forged entries entered its log: %v", err), tag)
+			} else {
+				ms2 := gc2.MetadataStore()
+				rep.Case(tag + "/reopen")
+				if got := snapshotStore(ms2).String(); got != expect {
+					rep.Violate("C03/forgery-applied-after-reopen/"+typ.String(), "after closing and reopening the group its state differs: entries that were dropped when they arrived are applied when the index is rebuilt",
+						map[string]interface{}{"group_type": gt.String(), "event_type": typ.String(), "before": expect, "after": got})
+				} else {
+					rep.Count("reopen_state_unchanged", 1)
+				}
+				listed := c03Listed(ctx, ms2)
+				for i, c := range append(append([]string(nil), forgedCIDs...), forged2...) {
+					if listed[c] {
+						rep.Violate("C03/forgery-listed/"+typ.String(), "a forged entry is handed out by the history listing after the group was reopened", map[string]interface{}{"group_type": gt.String(), "event_type": typ.String(), "index": i})
+					}
+				}
+				_ = ms2.Drop()
+				_ = gc2.Close()
+			}
 		}
 	}
 	if rep.Counter("positive_controls_emitted") == 0 || rep.Counter("forged_entries_in_log") == 0 {
